@@ -213,11 +213,17 @@ def check_frame(n, ob, seconds, idx, history=(), isouses=()):
         count("unit_tangent_towards")
         evals += 1
         try:
-            Pp = H.Point(P.copy())
-            Q = H.Point(q.copy() * (1.0 + (idx % 4)))           # any positive representative of the target
+            # any representative of the base point and of the target: positive multiples, and (every fourth case each)
+            # representatives on the lower sheet -- the geodesic from p towards q does not depend on them
+            sp = -1.0 if (idx // 4) % 4 in (1, 3) else 1.0
+            sq = -1.0 if (idx // 4) % 4 in (2, 3) else 1.0
+            Pp = H.Point(P.copy() * sp)
+            Q = H.Point(q.copy() * (1.0 + (idx % 4)) * sq)
             utv = Pp.unit_tangent_towards(Q)
             sgn = 1 if al["t"][0] > 0 else -1
-            mis = dir_mismatch(utv, tan, sgn)
+            # the direction is compared in the spec's representative of p (upper sheet); with a lower-sheet base point the
+            # stored vector is relative to that representative, so only the contract "following it for d(p,q) arrives at q" is used
+            mis = dir_mismatch(utv, tan, sgn) if sp > 0 else None
             vv = np.asarray(utv.vector, float)
             pp = np.asarray(utv.point, float)
             if mis:
